@@ -17,4 +17,9 @@ open PhQVerif Generated PhQVerif.Props.C09
 #print axioms mul_dyad_vector
 #print axioms mul_symmetric_planar
 #print axioms all_formats
+#print axioms PhQVerif.Props.C09.symmetric_inverse
+#print axioms PhQVerif.Props.C09.dyad_inverse_f32
+#print axioms PhQVerif.Props.C09.dyad_inverse_f80
+#print axioms PhQVerif.Props.C09.symmetric_inverse_f32
+#print axioms PhQVerif.Props.C09.symmetric_inverse_f80
 #eval s!"COUNT C09.format_triples {FmtTriples.rows.length}"
